@@ -21,7 +21,23 @@ struct Hash {
     string words() const { std::ostringstream o; o << "[" << (h & 0xffff) << "," << ((h >> 16) & 0xffff) << "," << ((h >> 32) & 0xffff) << "," << ((h >> 48) & 0xffff) << "]"; return o.str(); }
 };
 
-struct Instance { virtual ~Instance() {} virtual string segment(int k) = 0; };
+// segment numbers run on past nseg when the SAME objects are used for a repeat of the simulation:
+// segment nseg+1 re-initialises them with the same initial state, nseg+2 steps again, ...
+struct Instance { virtual ~Instance() {} virtual string segment(int k, int nseg) = 0; };
+
+// results produced through the System's handlers and reporters are part of what must repeat
+struct Results { Hash h; int reports = 0, events = 0; };
+struct Kick : ScheduledEventHandler {      // one-shot at t = 0
+    Results& res; const SimbodyMatterSubsystem& matter;
+    Kick(Results& r, const SimbodyMatterSubsystem& m) : res(r), matter(m) {}
+    Real getNextEventTime(const State& s, bool includeCurrent) const override { return (s.getTime() < 0 || (includeCurrent && s.getTime() == 0)) ? 0 : Infinity; }
+    void handleEvent(State& s, Real, bool&) const override { s.updU()[s.getNU() - 1] += 0.25; res.events++; res.h.add(s.getTime()); }   // the last mobility is unconstrained in every model here
+};
+struct Rep : PeriodicEventReporter {
+    Results& res;
+    Rep(Results& r, Real dt) : PeriodicEventReporter(dt), res(r) {}
+    void handleEvent(const State& s) const override { res.reports++; res.h.add(s.getTime()); res.h.add(s.getY()); }
+};
 
 // a simulation: model + integrator; segment 1 builds and initialises, later segments step
 struct Sim : Instance {
@@ -29,7 +45,23 @@ struct Sim : Instance {
     std::unique_ptr<MultibodySystem> sys; std::unique_ptr<SimbodyMatterSubsystem> matter; std::unique_ptr<GeneralForceSubsystem> forces;
     std::unique_ptr<ContactTrackerSubsystem> tracker; std::unique_ptr<CompliantContactSubsystem> contact;
     std::unique_ptr<Integrator> integ; std::unique_ptr<TimeStepper> ts;
-    Sim(const string& kind, const string& integ) : kind(kind), integName(integ) {}
+    Results res; string reuse;
+    Sim(const string& kind, const string& integ, const string& reuse) : kind(kind), integName(integ), reuse(reuse) {}
+    void makeIntegrator() {
+        if (integName == "RKM") integ.reset(new RungeKuttaMersonIntegrator(*sys));
+        else if (integName == "CPodes") integ.reset(new CPodesIntegrator(*sys));
+        else if (integName == "Verlet") integ.reset(new VerletIntegrator(*sys));
+        else if (integName == "RK3") integ.reset(new RungeKutta3Integrator(*sys));
+        else if (integName == "SEE2") integ.reset(new SemiExplicitEuler2Integrator(*sys));
+        else integ.reset(new RungeKuttaFeldbergIntegrator(*sys));
+        integ->setAccuracy(1e-4);
+    }
+    // repeat the simulation with the same System and TimeStepper (and, unless reuse == "ts", the same Integrator)
+    void reinit() {
+        res = Results();
+        if (reuse == "ts") { makeIntegrator(); ts->setIntegrator(*integ); }
+        ts->initialize(sys->getDefaultState());
+    }
     void build() {
         sys.reset(new MultibodySystem()); matter.reset(new SimbodyMatterSubsystem(*sys)); forces.reset(new GeneralForceSubsystem(*sys));
         forces->setNumberOfThreads(1);
@@ -54,31 +86,31 @@ struct Sim : Instance {
             Force::MobilityLinearSpring(*forces, p2, MobilizerQIndex(0), 30, 0.2);
             p1.setDefaultAngle(0.4);
         }
+        sys->addEventHandler(new Kick(res, *matter));
+        sys->addEventReporter(new Rep(res, 10.0));      // due at the start only
+        sys->addEventReporter(new Rep(res, 0.04));
         sys->realizeTopology();
         State s = sys->getDefaultState();
-        if (integName == "RKM") integ.reset(new RungeKuttaMersonIntegrator(*sys));
-        else if (integName == "CPodes") integ.reset(new CPodesIntegrator(*sys));
-        else if (integName == "Verlet") integ.reset(new VerletIntegrator(*sys));
-        else if (integName == "RK3") integ.reset(new RungeKutta3Integrator(*sys));
-        else if (integName == "SEE2") integ.reset(new SemiExplicitEuler2Integrator(*sys));
-        else integ.reset(new RungeKuttaFeldbergIntegrator(*sys));
-        integ->setAccuracy(1e-4);
+        makeIntegrator();
         ts.reset(new TimeStepper(*sys, *integ));
         ts->initialize(s);
     }
-    string segment(int k) override {
-        if (k == 1) build(); else ts->stepTo(0.15 * (k - 1));
+    string segment(int k, int nseg) override {
+        const int kk = (k - 1) % nseg + 1;
+        if (k == 1) build(); else if (kk == 1) reinit(); else ts->stepTo(0.15 * (kk - 1));
         const State& s = integ->getState();
         sys->realize(s, Stage::Acceleration);
         Hash h; h.add(s.getTime()); h.add(s.getY()); h.add(s.getYDot()); h.add(s.getMultipliers());
         h.add(sys->calcEnergy(s)); h.add((double)integ->getNumStepsTaken());
+        h.add((double)res.reports); h.add((double)res.events); h.add((double)res.h.h);
         return h.words();
     }
 };
 struct Rng : Instance {
     string kind; int seed; std::unique_ptr<Random::Uniform> u; std::unique_ptr<Random::Gaussian> g;
     Rng(const string& kind, int seed) : kind(kind), seed(seed) {}
-    string segment(int k) override {
+    string segment(int k, int nseg) override {
+        if (k > 1 && (k - 1) % nseg == 0) { if (kind == "uniform") u->setSeed(seed); else g->setSeed(seed); }   // reseeding restarts the stream
         if (k == 1) { if (kind == "uniform") { u.reset(new Random::Uniform(-2.0, 5.0)); u->setSeed(seed); } else { g.reset(new Random::Gaussian(1.0, 2.0)); g->setSeed(seed); } }
         Hash h;
         for (int i = 0; i < 50; ++i) h.add(kind == "uniform" ? u->getValue() : g->getValue());
@@ -89,7 +121,7 @@ struct Rng : Instance {
 
 static Instance* make(const mj::Value& d) {
     const string t = d["type"].str();
-    if (t == "sim") return new Sim(d["model"].str(), d["integ"].str());
+    if (t == "sim") return new Sim(d["model"].str(), d["integ"].str(), d.has("reuse") ? d["reuse"].str() : string("all"));
     return new Rng(d["dist"].str(), d["seed"].num());
 }
 
@@ -126,19 +158,20 @@ int main(int argc, char** argv) {
             std::vector<std::unique_ptr<Instance>> inst;
             for (auto& d : p["instances"].arr()) inst.emplace_back(make(d));
             std::vector<int> cnt(inst.size(), 0);
-            fprintf(out, "{\"e\":\"Reset\",\"i\":0,\"k\":0,\"h\":[]}\n");
+            const int nseg = p["nseg"].num();
+            fprintf(out, "{\"e\":\"Reset\",\"i\":0,\"k\":%d,\"h\":[]}\n", nseg);
             if (mode == "solo") {
                 for (size_t i = 0; i < inst.size(); ++i)
-                    for (int k = 1; k <= p["nseg"].num(); ++k)
-                        fprintf(out, "{\"e\":\"Ref\",\"i\":%d,\"k\":%d,\"h\":%s}\n", (int)i + 1, k, inst[i]->segment(k).c_str());
+                    for (int k = 1; k <= nseg; ++k)
+                        fprintf(out, "{\"e\":\"Ref\",\"i\":%d,\"k\":%d,\"h\":%s}\n", (int)i + 1, k, inst[i]->segment(k, nseg).c_str());
             } else {
                 for (auto& s : p["sched"].arr()) {
                     const int i = s.num() - 1; const int k = ++cnt[i];
-                    fprintf(out, "{\"e\":\"Seg\",\"i\":%d,\"k\":%d,\"h\":%s}\n", i + 1, k, inst[i]->segment(k).c_str());
+                    fprintf(out, "{\"e\":\"Seg\",\"i\":%d,\"k\":%d,\"h\":%s}\n", i + 1, k, inst[i]->segment(k, nseg).c_str());
                 }
             }
         } catch (const std::exception& e) {
-            fprintf(out, "{\"e\":\"Error\",\"i\":0,\"k\":0,\"h\":[],\"exc\":%s}\n", mj::quote(string(e.what()).substr(0, 200)).c_str());
+            fprintf(out, "{\"e\":\"Error\",\"i\":0,\"k\":0,\"h\":[],\"exc\":%s}\n", mj::quote(string(e.what()).substr(0, 900)).c_str());
         }
         fflush(out);
     }
